@@ -4901,7 +4901,7 @@ class CIMProperty(_CIMComparisonMixin, SlottedPickleMixin):
         """
         return CIMProperty(
             self.name,
-            self.value,
+            _copy_value(self.value),
             type=self.type,
             class_origin=self.class_origin,
             array_size=self.array_size,
@@ -6235,7 +6235,7 @@ class CIMParameter(_CIMComparisonMixin, SlottedPickleMixin):
             reference_class=self.reference_class,
             is_array=self.is_array,
             array_size=self.array_size,
-            value=self.value,
+            value=_copy_value(self.value),
             embedded_object=self.embedded_object,
             qualifiers=self.qualifiers)  # setter copies
 
@@ -8020,6 +8020,21 @@ def _infer_type(value, element_kind, element_name):
         raise ValueError(
             _format("Cannot infer CIM type of {0} {1!A} from its value: {2!A}",
                     element_kind, element_name, exc))
+
+
+def _copy_value(value):
+    """
+    Return a copy of a CIM value for use by the copy() methods of CIMProperty
+    and CIMParameter: Array values are copied into a new list, and mutable
+    CIM objects (references and embedded objects) are copied using their
+    copy() method. Values of immutable types are returned unchanged.
+    """
+    if isinstance(value, list):
+        return [_copy_value(v) for v in value]
+    if isinstance(value, (CIMInstanceName, CIMClassName, CIMInstance,
+                          CIMClass)):
+        return value.copy()
+    return value
 
 
 def _infer_is_array(value):
